@@ -305,6 +305,13 @@ fn f_choice(v: &J, _s: f64) -> f64 {
     match v.as_object().unwrap().iter().next().unwrap() { (k, x) if k == "b" => match x.as_str().unwrap() { "z" => 0.0, "y" => 1.0, _ => 2.0 }, _ => 3.0 }
 }
 
+/// a variant with five alternatives: the optimum is alternative `target` (passed in the `scale` slot), everything else is
+/// equally bad - every alternative must be reachable by variant switches from any other
+fn f_choice5(v: &J, target: f64) -> f64 {
+    let want = format!("v{}", target as usize);
+    match v.as_object().unwrap().iter().next().unwrap() { (k, _) if *k == want => 0.0, _ => 1.0 }
+}
+
 fn sphere_spec(d: usize, s: f64) -> String {
     (0..d).map(|i| format!("x{i}:\n  type: real\n  init: {}\n  scale: {}\n", 3.0 * s, s)).collect()
 }
@@ -328,6 +335,12 @@ pub fn battery() -> Vec<Problem> {
     // warm start: the initial guess is already within 1e-3 scale units of the optimum and stays the best-ranked
     // individual for a long time; the adaptive parameters of its offspring must be inherited all the same
     v.push(Problem { name: "warm".into(), spec: "type: real\ninit: 0.001\nscale: 1.0\n".into(), budget: 2000, f: f_warm, scale: 1.0 });
+    for t in 0..5usize {
+        let init = if t == 0 { 4 } else { 0 };
+        let mut spec = format!("type: variant\ninit: v{init}\n");
+        for i in 0..5 { spec += &format!("v{i}:\n  type: bool\n  init: false\n"); }
+        v.push(Problem { name: format!("choice5@{t}"), spec, budget: 300, f: f_choice5, scale: t as f64 });
+    }
     v.push(Problem { name: "choice".into(), spec: "type: variant\ninit: a\na:\n  type: real\n  init: 0.0\n  scale: 1.0\nb:\n  type: enum\n  values: [x, y, z]\n  init: x\n".into(), budget: 500, f: f_choice, scale: 1.0 });
     v
 }
